@@ -53,12 +53,15 @@ ALPHABET = {
     "np64": [["PS-B", row([16, 16], "np64")], ["PS-C", row([6, 32], "np64")]],
     "ndarr": [["PS-A", row([31.5, 0.0, 7.25], "ndarray")], ["PS-C", row([0.0, 6.0, 0.0], "ndarray")]],
     "zeros": [["PS-A", row([0.0, 0.0])], ["PS-B", row([0.0, 0.0])]],
+    # rows of different value types in one mapping: whole amperes as Python ints / an integer array FIRST, fractions after
+    "mixed": [["PS-C", row([6, 8], "int")], ["PS-A", row([7.5, 8.25])]],
+    "mixednp": [["PS-C", row([8, 6], "intarr")], ["PS-A", row([0.75, 31.25], "np64")]],
     # malformed
     "unknown": [["PS-A", row([16])], ["PS-X", row([8])]],
     "ragged": [["PS-A", row([8, 16])], ["PS-B", row([8])]],
 }
 MALFORMED = {"unknown": KeyError, "ragged": InvalidScheduleError}
-QUICK = ["empty", "A1", "A3", "AB", "BA", "all2", "all2p", "vacantC", "long9", "ndarr", "zeros", "unknown", "ragged"]
+QUICK = ["empty", "A1", "A3", "AB", "BA", "all2", "all2p", "vacantC", "long9", "ndarr", "zeros", "mixed", "unknown", "ragged"]
 THOROUGH = list(ALPHABET)
 
 SETUPS = {
